@@ -113,15 +113,15 @@ func main() {
 			exhaustiveBits = false
 		}
 		k.quoteByteSets(v, thorough)
-		k.quoteSplices(v, r.Pick(4000, 150000))
+		k.quoteSplices(v, r.Pick(4000, 300000))
 		k.quoteStructured(v)
 		k.quoteLengths(v)
 		k.collateralBytes(v, thorough)
-		k.collateralSplices(v, r.Pick(3000, 60000))
+		k.collateralSplices(v, r.Pick(3000, 150000))
 		k.foreignCollateral(v)
-		k.timeGrid(v, r.Pick(1500, 60000))
-		k.policyCases(v, r.Pick(600, 30000))
-		k.tcbLevels(v, r.Pick(1500, 50000))
+		k.timeGrid(v, r.Pick(1500, 120000))
+		k.policyCases(v, r.Pick(600, 60000))
+		k.tcbLevels(v, r.Pick(1500, 100000))
 		k.pckTime(v)
 	}
 	k.nodeLevel()
